@@ -140,9 +140,10 @@ def fb(ctx):
             if x[0] == 'var' and any(find_calls(d_, 'parse') for d_ in f.init_of(x[1])):
                 some = is_call(c, 'is_some') == (lab is True)
                 return ('declared', 'Some' if (some != neg) else 'None')
-        if is_call(c, 'Iterator::any') and len(c[2]) == 2:
+        if (is_call(c, 'Iterator::any') or is_call(c, 'Iterator::all')) and len(c[2]) == 2:
             pf = predicate_fn(P, c[2][1])
             selfp = False
+            pneg = False        # the predicate is the negation of is_self
             if pf is not None:
                 if pf.id.endswith('Argument::is_self'):
                     selfp = True
@@ -154,6 +155,21 @@ def fb(ctx):
                             if any(x_['expr'] == ('int', 1, 'bool') and pf.dominates(tgt, x_['block']) for x_ in pf.exits()):
                                 tr |= set(lab_.split('|'))
                         selfp = tr == {'ConstSelf', 'MutSelf'}
+                        if tr == {'Field'} and len(sws) == 1:
+                            selfp, pneg = True, True
+                    else:
+                        ex_ = [strip(x_['expr']) for x_ in pf.exits()]
+                        while len(ex_) == 1 and ex_[0][0] == 'un' and ex_[0][1] == 'Not':
+                            ex_, pneg = [strip(ex_[0][2])], not pneg
+                        selfp = len(ex_) == 1 and ex_[0][0] == 'call' and ex_[0][1].endswith('Argument::is_self') and len(ex_[0][2]) == 1 and \
+                            strip(ex_[0][2][0])[0] == 'arg'
+            if is_call(c, 'Iterator::all'):
+                # all(!is_self) is !any(is_self); all(is_self) is something else
+                if not pneg:
+                    selfp = False
+                neg = not neg
+            elif pneg:
+                selfp = False
             it = strip(expand(f, c[2][0]))
             src_ = it
             while src_[0] == 'call' and src_[2] and re.search(r'(slice::<impl \[T\]>::iter|::into_iter|::deref|::as_slice|::as_ref|::borrow)$', src_[1]):
